@@ -2,7 +2,14 @@
 
 For every generated statement: (1) the real transformation's accept/refuse decision and its output
 (exported to MiniF) are compared with the Lean model (driver C06); (2) THE PROPERTY is evaluated on
-the real code: original and transformed program are compiled with gfortran and their output compared."""
+the real code: original and transformed program are compiled with gfortran and their output compared.
+
+Outside the property's value domain (signed zeros are excluded, the Lean value domain has one zero), kept here as
+a remark and NOT as a finding: Abs2CodeTrans lowers ABS(X) to `if (tmp > 0.0) res = tmp else res = tmp * -1.0`, so
+ABS(+0.0) becomes -0.0.  This is observable only through the sign of a zero, e.g. `r(2) = sign(5.0, abs(z))` with
+z = 0.0 gives -5.0 instead of 5.0 (the form `IF X < 0.0` of the transformation's docstring would not); the tests
+pin the generated text, so it is not patched.  c06_real.outside_domain() skips statements in which the lowered
+intrinsic is the 2nd argument of an enclosing SIGN (and statements with a REAL variable in a section bound)."""
 import json
 import os
 
@@ -333,6 +340,63 @@ def case_red(g):
             "trans": kind.capitalize() + "2LoopTrans", "target": ["intrinsic", kind.upper(), which]}
 
 
+def case_red_self(g):
+    """reduction whose TARGET is an element of an array that the reduced expression / mask / rest of the
+    rhs also reads in a different form (`a(1) = maxval(a)`, `a(1) = a(2) + sum(a)`, target array only in
+    the mask ...): the real rule "lhs SYMBOL occurs on the rhs => accumulate in a temporary" is exercised
+    with targets inside (first / middle / last) and outside the reduced section, rank 1 and rank 2."""
+    r = g.rng
+    kind = r.choice(["sum", "sum", "product", "minval", "maxval", "maxval"])
+    arr = r.choice(["a", "b", "c", "d", "v", "w", "u", "m", "q", "p2"])
+    dims = R.ARRAYS[arr]
+    d = r.randrange(len(dims))
+    lo, hi = dims[d]
+    form = r.choice(["whole", "colon", "partial", "partial"]) if len(dims) == 1 else r.choice(["colon", "partial"])
+    if form == "partial" or kind == "product":
+        cnt = r.choice([2, 3]) if kind == "product" else r.choice([2, 3, 4])
+        s = r.randint(lo, hi - cnt + 1)
+        e = s + cnt - 1
+        rtxt = f"{g.sym(s)}:{g.sym(e)}"
+        form = "partial"
+    else:
+        s, e, rtxt = lo, hi, ":"
+    where = r.choice(["first", "middle", "last", "outside", "middle"])
+    pos = {"first": s, "middle": (s + e) // 2, "last": e}.get(where)
+    if pos is None:
+        outside = [i for i in range(lo, hi + 1) if not s <= i <= e]
+        pos = r.choice(outside) if outside else s
+    if len(dims) == 1:
+        sec = arr if form == "whole" else f"{arr}({rtxt})"
+        tgt = f"{arr}({g.sym(pos)})"
+        other_elem = f"{arr}({g.sym(r.randint(lo, hi))})"
+    else:
+        olo, ohi = dims[1 - d]
+        fixed = r.randint(olo, ohi)
+        sec = f"{arr}({rtxt},{g.sym(fixed)})" if d == 0 else f"{arr}({g.sym(fixed)},{rtxt})"
+        trow = fixed if r.random() < 0.7 else r.randint(olo, ohi)
+        tgt = f"{arr}({g.sym(pos)},{g.sym(trow)})" if d == 0 else f"{arr}({g.sym(trow)},{g.sym(pos)})"
+        other_elem = f"{arr}({g.sym(r.randint(dims[0][0], dims[0][1]))},{g.sym(r.randint(dims[1][0], dims[1][1]))})"
+    cnt = e - s + 1
+    others = [x for x in ["a", "b", "c", "d"] if x != arr]
+    osec = g.section(r.choice(others), cnt, 1) or sec
+    shape = r.choice(["plain", "plain", "expr", "mask-self", "mask-only", "ctx-elem", "ctx"])
+    args = [sec]
+    rhs = None
+    if shape == "expr":
+        args = [r.choice([f"{sec} + {osec}", f"abs({sec}) * 2.0", f"max({osec}, {sec})"])]
+    elif shape == "mask-self":
+        args = [sec, f"mask={sec} {r.choice(['>', '/=', '<'])} {r.choice(['0.0', '1.0', other_elem])}"]
+    elif shape == "mask-only":
+        args = [osec, f"mask={sec} {r.choice(['>', '/='])} {r.choice(['0.0', tgt])}"]
+    call = f"{kind}(" + ", ".join(args) + ")"
+    if shape == "ctx-elem":
+        rhs = r.choice([f"{other_elem} + {call}", f"{call} - {other_elem} * 2.0"])
+    elif shape == "ctx":
+        rhs = r.choice([f"1.0 + {call} * 2.0", f"max({call}, {r.choice(R.SCALARS)})"])
+    return {"kind": "red", "flavour": f"self-{shape}-{where}", "stmts": [f"{tgt} = {rhs or call}"],
+            "trans": kind.capitalize() + "2LoopTrans", "target": ["intrinsic", kind.upper(), 0]}
+
+
 V10, V4 = ["a", "b", "c", "d"], ["v", "r", "w", "u"]
 
 
@@ -619,7 +683,7 @@ def run(chk):
     findings = common.known_findings("C06")
     rng = chk.rng
     nb, bs = {"quick": (8, 24), "thorough": (100, 24)}[chk.tier]
-    gens = [case_aa] * 5 + [case_aa_elem] * 3 + [case_intr] * 4 + [case_red] * 6 + [case_dot] * 2 + [case_matmul] * 2 + [case_misc]
+    gens = [case_aa] * 5 + [case_aa_elem] * 3 + [case_intr] * 4 + [case_red] * 5 + [case_red_self] * 3 + [case_dot] * 2 + [case_matmul] * 2 + [case_misc]
     cparams = R.gen_params(__import__("random").Random(7))
     cparams["n"], cparams["k"] = 4, 2
     batches = [([dict(c) for c in CORPUS], cparams)]
